@@ -236,7 +236,7 @@ def cli_check(ctx, git, case, base, rng, inroot, attr0):
     if rc3 != 0:
         problems.append({"kind": "cbi-tree failed", "stderr": err3[-300:]})
     # cbi-cov: excluded files are not exported
-    db = os.path.join(base, "dbs", sorted({t["platform"] for t in case["tus"]})[0] + ".json")
+    db = os.path.join(base, "dbs", forest.dbname(sorted({t["platform"] for t in case["tus"]})[0]))
     rc4, out4, err4 = cli.run("cbi-cov", ["compute", "-S", root] + xargs + ["-o", os.path.join(base, "cov.json"), db], root)
     cells.add("cli:cov")
     if rc4 != 0:
